@@ -1,5 +1,7 @@
 import Lean.Data.Json
 import XyzModel.Batch
+import XyzModel.Core
+import XyzModel.Value
 /-! JSON-lines driver over the executable models (DESIGN.md Appendix B). One request per line, one reply per line. -/
 open Lean
 
@@ -27,9 +29,109 @@ def opBatch (j : Json) : Json :=
     Json.mkObj [("batchsize", toJson c.batchsize), ("num_batches", toJson c.numBatches),
                 ("remainder", toJson c.remainder), ("batches", toJson (Batch.sow c stream))]
 
+/-! ### symbolic results -/
+
+inductive Sym where
+  | r (loc : List Nat)              -- the value the function returned at `loc`
+  | c (loc : List Nat) (j : Nat)    -- its `j`-th component
+  | m (j : Option Nat)              -- the placeholder (of component `j`)
+deriving Repr
+
+def leafOfStr : String → Value.Leaf
+  | "num" => .num | "nan" => .nan | "none" => .none | "bool" => .bool | "str" => .str | _ => .num
+def strOfLeaf : Value.Leaf → String
+  | .num => "num" | .nan => "nan" | .none => "none" | .bool => "bool" | .str => "str"
+
+def shapeLeafOf (j : Json) : List Nat × Value.Leaf :=
+  match j with
+  | .arr #[sh, lf] => ((fromJson? sh : Except String (List Nat)).toOption.getD [], leafOfStr (lf.getStr?.toOption.getD ""))
+  | _ => ([], .num)
+
+def valOfJson (j : Json) : Value.Val :=
+  match j.getObjVal? "scalar" with
+  | .ok l => .scalar (leafOfStr (l.getStr?.toOption.getD ""))
+  | .error _ =>
+  match j.getObjVal? "arr" with
+  | .ok a => let (sh, lf) := shapeLeafOf a; .arr sh lf
+  | .error _ =>
+  match j.getObjVal? "tuple" with
+  | .ok (.arr cs) => .tuple (cs.toList.map shapeLeafOf)
+  | _ =>
+  match j.getObjVal? "ds" with
+  | .ok (.arr vs) => .ds (vs.toList.map fun v =>
+      match v with
+      | .arr #[n, sh, lf] => (n.getStr?.toOption.getD "", (shapeLeafOf (.arr #[sh, lf])).1, (shapeLeafOf (.arr #[sh, lf])).2)
+      | _ => ("", [], .num))
+  | _ => .scalar .num
+
+def jsonOfVal : Value.Val → Json
+  | .scalar l => Json.mkObj [("scalar", strOfLeaf l)]
+  | .arr sh l => Json.mkObj [("arr", Json.arr #[toJson sh, strOfLeaf l])]
+  | .tuple cs => Json.mkObj [("tuple", Json.arr (cs.map fun c => Json.arr #[toJson c.1, strOfLeaf c.2]).toArray)]
+  | .ds vs => Json.mkObj [("ds", Json.arr (vs.map fun v => Json.arr #[v.1, toJson v.2.1, strOfLeaf v.2.2]).toArray)]
+
+/-- kind of component `j` of a tuple kind -/
+def compKind (k : Value.Val) (j : Nat) : Value.Val :=
+  match k with
+  | .tuple cs => match cs[j]? with
+    | some ([], l) => .scalar l
+    | some (sh, l) => .arr sh l
+    | none => .scalar .num
+  | v => v
+
+def symJson (kind : Value.Val) : Sym → Json
+  | .r loc => Json.mkObj [("r", toJson loc)]
+  | .c loc j => Json.mkObj [("c", Json.arr #[toJson loc, toJson j])]
+  | .m none => Json.mkObj [("m", jsonOfVal (Value.nanLike kind))]
+  | .m (some j) => Json.mkObj [("m", jsonOfVal (Value.nanLike (compKind kind j)))]
+
+partial def nestJson (kind : Value.Val) : Core.Nest Sym → Json
+  | .leaf s => symJson kind s
+  | .node l => Json.arr (l.map (nestJson kind)).toArray
+
+def sweepOf (j : Json) : Core.Sweep :=
+  { caseArgs := ((j.getObjValAs? (List String) "caseArgs").toOption).getD []
+    caseRows := (j.getObjValAs? (List (List Nat)) "caseRows").toOption
+    comboArgs := ((j.getObjValAs? (List String) "comboArgs").toOption).getD []
+    comboVals := ((j.getObjValAs? (List (List Nat)) "comboVals").toOption).getD [] }
+
+def strategyOf (j : Json) : Core.Strategy :=
+  let s := getObj j "strategy"
+  match (s.getObjValAs? (List Nat) "shuffled").toOption, (s.getObjValAs? (List Nat) "executor").toOption with
+  | some σ, some π => .shuffledExecutor σ π
+  | some σ, none => .shuffled σ
+  | none, some π => .executor π
+  | none, none => .seq
+
+def coreErr : Core.Err → String
+  | .overlap => "overlap" | .emptyResults => "empty"
+
+/-- op "core": combo_runner_core on symbolic results -/
+def opCore (j : Json) : Json :=
+  let s := sweepOf j
+  let st := strategyOf j
+  let kind := valOfJson (getObj j "kind")
+  let flat := getBool j "flat"
+  let split := getNat j "split"
+  let coords := Json.mkObj [("fn_args", toJson s.fnArgs), ("coords", toJson s.coords)]
+  if split == 0 then
+    match Core.core (fun loc => Sym.r loc) (fun _ => Sym.m none) s st with
+    | .error e => err (coreErr e)
+    | .ok r => Json.mkObj [("log", toJson r.log), ("info", coords),
+        ("out", if flat then Json.arr (r.flat.map (symJson kind)).toArray else nestJson kind r.nested)]
+  else
+    let runs := (List.range split).mapM fun jj =>
+      Core.core (fun loc => Sym.c loc jj) (fun _ => Sym.m (some jj)) s st
+    match runs with
+    | .error e => err (coreErr e)
+    | .ok rs => Json.mkObj [("log", toJson ((rs.head?.map (·.log)).getD [])), ("info", coords),
+        ("out", Json.arr (rs.map fun r =>
+          if flat then Json.arr (r.flat.map (symJson kind)).toArray else nestJson kind r.nested).toArray)]
+
 def handle (j : Json) : Json :=
   match getStr j "op" with
   | "batch" => opBatch j
+  | "core" => opCore j
   | "ping" => Json.mkObj [("pong", true)]
   | o => err s!"bad-op {o}"
 
